@@ -39,7 +39,11 @@ type Scenario struct {
 	MakeResume  func(sa flows.SessionAssets, i int) (flows.Resume, error)
 	HTTPMocks   *httpx.MockRequestor // cloned per execution
 	Requestor   httpx.Requestor      // used when HTTPMocks is nil; nil = no HTTP mocks at all
-	Exempt      bool                 // some template mentions @webhook or @legacy_extra (the two exemptions)
+	// LoadWithout loads the assets with every asset of one kind deleted ("channels", "groups", "fields", "labels",
+	// "topics", "users", "globals", "optins", "classifiers", "resthooks", "other-flows"); nil = not available
+	LoadWithout func(kind string) (flows.SessionAssets, error)
+	DropKind    string // corpus: the kind to delete (""= chosen at random)
+	Exempt      bool   // some template mentions @webhook or @legacy_extra (the two exemptions)
 	Batch       bool
 	Input       any // replayable description
 	Tags        []string
@@ -63,14 +67,15 @@ type CallObs struct {
 
 // Exec is one execution of a scenario under a pattern.
 type Exec struct {
-	Pattern  []bool
-	Calls    []*CallObs
-	Harness  string   // non-empty: the harness could not carry the execution out (not a property failure)
-	Refix    []string // marshal -> ReadSession -> marshal differences seen at restart points (clause 1)
-	RefixAt  []int
-	ReadErrs []string
-	CtxDiff  []string // differences between Session.CurrentContext() of the live and of the re-read session
-	CtxAt    []int
+	Pattern   []bool
+	Calls     []*CallObs
+	Harness   string   // non-empty: the harness could not carry the execution out (not a property failure)
+	Refix     []string // marshal -> ReadSession -> marshal differences seen at restart points (clause 1)
+	RefixAt   []int
+	ReadErrs  []string
+	FirstRead string   // runDeleted: why the first read over the reduced assets did not succeed (not a failure of C02)
+	CtxDiff   []string // differences between Session.CurrentContext() of the live and of the re-read session
+	CtxAt     []int
 }
 
 func resetSources(seed int64, call int) {
@@ -213,10 +218,100 @@ func (sc *Scenario) run(pattern []bool, checkFix bool) *Exec {
 	return ex
 }
 
+// runDeleted: the scenario is run kept alive up to resume [at]; then every asset of [kind] disappears from the asset
+// store and the host restarts: the session is marshalled and read over the reduced assets with a missing-asset callback
+// that ignores (references to missing assets are dropped, so this first read may legitimately change the JSON).  From
+// then on the session the engine handed back must itself be persistable: clause 1 (marshal -> ReadSession over the same
+// reduced assets -> same JSON, same context) is evaluated on it immediately, at every later wait and at the end.
+func (sc *Scenario) runDeleted(kind string, at int) *Exec {
+	ex := &Exec{Pattern: nil}
+	if sc.HTTPMocks != nil {
+		httpx.SetRequestor(sc.HTTPMocks.Clone())
+	} else if sc.Requestor != nil {
+		httpx.SetRequestor(sc.Requestor)
+	} else {
+		httpx.SetRequestor(httpx.NewMockRequestor(map[string][]*httpx.MockResponse{}))
+	}
+	smtpx.SetSender(okSender{})
+	defer httpx.SetRequestor(httpx.DefaultRequestor)
+
+	resetSources(sc.Seed, 0)
+	sa, err := sc.LoadAssets()
+	if err != nil {
+		ex.Harness = "assets: " + err.Error()
+		return ex
+	}
+	eng := sc.NewEngine()
+	trig, err := sc.MakeTrigger(sa)
+	if err != nil {
+		ex.Harness = "trigger: " + err.Error()
+		return ex
+	}
+	var s flows.Session
+	var sp flows.Sprint
+	p, hung := guarded(func() { s, sp, err = eng.NewSession(sa, trig) })
+	first := observe(s, sp, err, p, hung)
+	ex.Calls = append(ex.Calls, first)
+	if first.Outcome != "ok" {
+		return ex
+	}
+	reduced := func() (flows.SessionAssets, error) { return sc.LoadWithout(kind) }
+	for i := 0; i < sc.NumResumes; i++ {
+		if i == at {
+			sa2, aerr := reduced()
+			if aerr != nil {
+				ex.Harness = "reduced assets: " + aerr.Error()
+				return ex
+			}
+			m1, merr := json.Marshal(s)
+			if merr != nil {
+				ex.ReadErrs = append(ex.ReadErrs, fmt.Sprintf("call %d: marshal: %s", i+1, merr))
+				return ex
+			}
+			var s2 flows.Session
+			var rerr error
+			rp, rh := guarded(func() { s2, rerr = eng.ReadSession(sa2, m1, func(assets.Reference, error) {}) })
+			if rh || rp != nil || rerr != nil {
+				// reading with assets gone is the subject of C10, not of this property: noted, not a failure here
+				ex.FirstRead = fmt.Sprintf("hang=%v panic=%v err=%v", rh, rp, rerr)
+				return ex
+			}
+			s, sa = s2, sa2
+		}
+		if i >= at {
+			if _, _, ok := sc.rereadWith(reduced, ex, eng, s, i+1); !ok && ex.Harness != "" {
+				return ex
+			}
+		}
+		resetSources(sc.Seed, i+1)
+		res, rerr := sc.MakeResume(sa, i)
+		if rerr != nil {
+			ex.Harness = "resume: " + rerr.Error()
+			return ex
+		}
+		var sp2 flows.Sprint
+		var err2 error
+		p, hung := guarded(func() { sp2, err2 = s.Resume(res) })
+		o := observe(s, sp2, err2, p, hung)
+		ex.Calls = append(ex.Calls, o)
+		if o.Outcome == "panic" || o.Outcome == "hang" {
+			return ex
+		}
+	}
+	if at < sc.NumResumes {
+		sc.rereadWith(reduced, ex, eng, s, sc.NumResumes+1)
+	}
+	return ex
+}
+
 // reread serialises s and reads it back over freshly loaded assets; records clause-1 differences and read errors
 // in ex (at = index of the call that would come next).  ok=false: the execution cannot go on.
 func (sc *Scenario) reread(ex *Exec, eng flows.Engine, s flows.Session, at int) (flows.Session, flows.SessionAssets, bool) {
-	sa2, aerr := sc.LoadAssets()
+	return sc.rereadWith(sc.LoadAssets, ex, eng, s, at)
+}
+
+func (sc *Scenario) rereadWith(load func() (flows.SessionAssets, error), ex *Exec, eng flows.Engine, s flows.Session, at int) (flows.Session, flows.SessionAssets, bool) {
+	sa2, aerr := load()
 	if aerr != nil {
 		ex.Harness = "assets: " + aerr.Error()
 		return nil, nil, false
